@@ -955,3 +955,38 @@ Proof.
       simpl is_neck. cbv iota. rewrite Xb.
       unfold mk_clause. rewrite (heads_of_chain (x :: r) h Hhs). reflexivity.
 Qed.
+
+(* ------------------------------------------------------------------ string level *)
+Lemma token_eqb_eq a b : token_eqb a b = true -> a = b.
+Proof.
+  destruct a, b; simpl; try discriminate; try reflexivity; intros H.
+  - apply andb_true_iff in H. destruct H as [H1 H2].
+    apply String.eqb_eq in H1. apply Bool.eqb_prop in H2. subst. reflexivity.
+  - apply String.eqb_eq in H. subst. reflexivity.
+  - apply N.eqb_eq in H. subst. reflexivity.
+  - apply String.eqb_eq in H. subst. reflexivity.
+  - apply String.eqb_eq in H. subst. reflexivity.
+Qed.
+
+Lemma tokens_eqb_eq l l' : tokens_eqb l l' = true -> l = l'.
+Proof.
+  revert l'. induction l as [|a l IH]; destruct l' as [|b l']; simpl; try discriminate; [reflexivity|].
+  intros H. apply andb_true_iff in H. destruct H as [H1 H2].
+  apply token_eqb_eq in H1. apply IH in H2. subst. reflexivity.
+Qed.
+
+Theorem roundtrip_string : forall s, printable s = true -> read_string (print_stmt s) = Some s.
+Proof.
+  intros s H. unfold printable in H. apply andb_true_iff in H. destruct H as [Hok Hlex].
+  unfold lex_ok in Hlex. unfold read_string.
+  destruct (tokenize (print_stmt s)) as [ts|]; [|discriminate].
+  apply tokens_eqb_eq in Hlex. subst ts. apply roundtrip_tokens. exact Hok.
+Qed.
+
+Theorem print_injective : forall s1 s2,
+  printable s1 = true -> printable s2 = true -> print_stmt s1 = print_stmt s2 -> s1 = s2.
+Proof.
+  intros s1 s2 H1 H2 E.
+  apply roundtrip_string in H1. apply roundtrip_string in H2.
+  rewrite E in H1. rewrite H1 in H2. inversion H2. reflexivity.
+Qed.
